@@ -24,6 +24,9 @@ LEVEL_TEXT = {
            "never produces reply bytes, any other request exactly one framed reply",
     "C05": "bounded model checking of the continues gate in Call::reply_struct for all flag combinations and all scripts of "
            "<= 3 implementation actions (server half of the property)",
+    "C06": "bounded model checking of handle()'s containment logic around the parser (reduced claim): a message the parser "
+           "rejects is neither dispatched nor answered, the requests before it are, and handle() returns Err; serde_json's own "
+           "robustness and the listen() worker are outside",
     "C11": "bounded model checking of duplicate detection and order of appearance in IDL::from_token (reduced claim: "
            "the grammar itself is out of reach)",
     "C12": "bounded model checking of the syntax-error position arithmetic (line lookup, column) over all 4-byte texts "
